@@ -3,58 +3,47 @@
    segments (polyline/styled.rs:16-41 over ThickSegmentIter, triangle/styled.rs:128-157 over
    ClosedThickSegmentIter).  Statements only; proofs are in Proofs/Join.v.  No range hypothesis is needed.
 
-   Known finding K02_thick_skeleton_bbox (FINDINGS-C02-join.md): a segment of a stroke wider than 1 px whose start
-   join has coinciding corners is taken for a skeleton; it is then DRAWN along its right edge but BOXED by its left
-   edge.  The class predicate is `K02_thick_skeleton_bbox segs = existsb is_skeleton segs`. *)
+   History: until /repo 3241194 a segment of a stroke wider than 1 px whose start join has coinciding corners
+   (ThickSegment::is_skeleton) was DRAWN along its right edge but BOXED by its left edge, and a drawn pixel could lie
+   outside the box (finding K02_thick_skeleton_bbox, FINDINGS-C02-join.md; found by the search p_thick_bbox).  The model
+   follows the repaired code; the formerly failing input is part of the non-vacuity example below. *)
 From EG Require Import Base.Prelude Model.Geometry Model.Line Model.Thickline Model.Join Proofs.Join.
 Set Default Timeout 60.
 
-(* every corner of every segment that is not a skeleton, and the left edge of every skeleton, lies in the box *)
+(* every corner of every segment that is not a skeleton, and the drawn (right) edge of every skeleton, lies in the box *)
 Theorem C02_join_bbox_contains_segment_corners : forall segs seg p, In seg segs ->
-  (is_skeleton seg = false /\ seg_corner seg p) \/ (is_skeleton seg = true /\ seg_left_corner seg p) ->
+  (is_skeleton seg = false /\ seg_corner seg p) \/ (is_skeleton seg = true /\ seg_drawn_corner seg p) ->
   contains (segments_bounding_box segs) p = true.
 Proof. exact segments_bounding_box_contains. Qed.
 
-(* outside the class of the known finding: all four corners of all segments *)
-Theorem C02_join_bbox_contains_all_corners : forall segs seg p,
-  K02_thick_skeleton_bbox segs = false -> In seg segs -> seg_corner seg p ->
+(* in particular the end points of the edge a skeleton is drawn along are inside the box, for every segment *)
+Theorem C02_join_bbox_contains_drawn_edge : forall segs seg p, In seg segs -> seg_drawn_corner seg p ->
   contains (segments_bounding_box segs) p = true.
-Proof. exact segments_bounding_box_contains_all. Qed.
+Proof. exact segments_bounding_box_contains_drawn. Qed.
 
 (* ... instantiated for the styled bounding box of a thick polyline *)
 Theorem C02_join_polyline_bbox_contains_corners : forall pts w segs bb seg p,
-  thick_segment_iter pts w = Some segs -> poly_thick_bounding_box pts w = Some bb ->
-  K02_thick_skeleton_bbox segs = false -> In seg segs -> seg_corner seg p ->
+  thick_segment_iter pts w = Some segs -> poly_thick_bounding_box pts w = Some bb -> In seg segs ->
+  (is_skeleton seg = false /\ seg_corner seg p) \/ (is_skeleton seg = true /\ seg_drawn_corner seg p) ->
   contains bb p = true.
 Proof.
-  intros pts w segs bb seg p T B K I C. unfold poly_thick_bounding_box in B. rewrite T in B.
-  injection B as <-. exact (segments_bounding_box_contains_all segs seg p K I C).
+  intros pts w segs bb seg p T B I C. unfold poly_thick_bounding_box in B. rewrite T in B.
+  injection B as <-. exact (segments_bounding_box_contains segs seg p I C).
 Qed.
 
-(* the finding is machine checked: in the class, the property fails.  Polyline [(-7,-7),(-9,-10),(-3,-21)], stroke 2:
-   the second segment is a skeleton, its right edge (the one that is drawn) ends in (-3,-21), the box stops at x = -4 *)
-Theorem C02_join_skeleton_bbox_refuted :
-  exists pts w segs seg p,
-    thick_segment_iter pts w = Some segs /\ K02_thick_skeleton_bbox segs = true /\ In seg segs /\ seg_corner seg p /\
-    In p (match poly_thick_points pts (P 0 0) w with Some l => l | None => [] end) /\
-    contains (segments_bounding_box segs) p = false.
-Proof.
-  exists [P (-7) (-7); P (-9) (-10); P (-3) (-21)], 2.
-  eexists. eexists. exists (P (-3) (-21)).
-  split; [vm_compute; reflexivity|].
-  split; [vm_compute; reflexivity|].
-  split; [right; left; reflexivity|].
-  split; [right; left; reflexivity|].
-  split; [vm_compute; tauto|].
-  vm_compute; reflexivity.
-Qed.
-
-(* non-vacuity: a polyline outside the class whose box is not trivial *)
+(* non-vacuity: an ordinary polyline; and the input of the repaired finding, Polyline [(-7,-7),(-9,-10),(-3,-21)] with
+   stroke 2: its second segment is a skeleton, the pixel (-3,-21) is drawn, and the box now contains it *)
 Example C02_join_nonvacuous :
-  let pts := [P 0 0; P 10 0; P 10 10] in
-  match thick_segment_iter pts 4 with
-  | Some segs => K02_thick_skeleton_bbox segs = false /\ length segs = 2%nat /\
-                 segments_bounding_box segs = R (P 0 (-2)) (S 13 13)
-  | None => False
-  end.
-Proof. vm_compute. repeat split; reflexivity. Qed.
+  (match thick_segment_iter [P 0 0; P 10 0; P 10 10] 4 with
+   | Some segs => existsb is_skeleton segs = false /\ length segs = 2%nat /\
+                  segments_bounding_box segs = R (P 0 (-2)) (S 13 13)
+   | None => False
+   end) /\
+  (match thick_segment_iter [P (-7) (-7); P (-9) (-10); P (-3) (-21)] 2 with
+   | Some segs => existsb is_skeleton segs = true /\
+                  contains (segments_bounding_box segs) (P (-3) (-21)) = true /\
+                  In (P (-3) (-21)) (match poly_thick_points [P (-7) (-7); P (-9) (-10); P (-3) (-21)] (P 0 0) 2 with
+                                     | Some l => l | None => [] end)
+   | None => False
+   end).
+Proof. vm_compute. repeat split; try reflexivity; tauto. Qed.
